@@ -97,6 +97,9 @@ impl<const D: usize> ToroidalSpace<D> {
             return None;
         }
         let wrapped = v_f64.rem_euclid(period);
+        // `rem_euclid` can round up to `period` itself for tiny negative inputs; keep the
+        // result inside the half-open interval [0, period).
+        let wrapped = if wrapped >= period { 0.0 } else { wrapped };
         <T as NumCast>::from(wrapped)
     }
 }
@@ -115,7 +118,9 @@ impl<const D: usize> TopologicalSpace for ToroidalSpace<D> {
     fn canonicalize_point(&self, coords: &mut [f64]) {
         for (coord, &period) in coords.iter_mut().zip(self.domain.iter()) {
             if period.is_finite() && period > 0.0 {
-                *coord = coord.rem_euclid(period);
+                let wrapped = coord.rem_euclid(period);
+                // `rem_euclid` can round up to `period` itself for tiny negative inputs.
+                *coord = if wrapped >= period { 0.0 } else { wrapped };
             }
         }
     }
